@@ -65,7 +65,7 @@ impl<'a> VisitMut for BodyRules<'a> {
         let mut repl: Option<Expr> = None;
         // O (configured): a named std-only expression is replaced by a call to an outlined helper whose body is that expression
         if let Some(fs) = self.unit.fns.get(&self.fnpath) {
-            if !fs.outline_exprs.is_empty() && matches!(e, Expr::MethodCall(_) | Expr::Call(_)) {
+            if !fs.outline_exprs.is_empty() && matches!(e, Expr::MethodCall(_) | Expr::Call(_) | Expr::Binary(_)) {
                 let key = norm(&e.to_token_stream().to_string());
                 for (a, b) in &fs.outline_exprs { if *a == key { repl = Some(syn::parse_str(b).expect("outline-expr replacement")); self.outline(&format!("expr:{}", a)); } }
             }
@@ -79,7 +79,7 @@ impl<'a> VisitMut for BodyRules<'a> {
             }
             // rule G: ghost token argument on channel operations
             for (feat, meth, extra) in &self.unit.ghost_args {
-                if (feat == "-" || self.features.contains(feat)) && name == *meth && m.args.len() <= 1 {
+                if (feat == "-" || self.features.contains(feat)) && name == *meth && (m.args.len() <= 1 || !matches!(name.as_str(), "send" | "try_send" | "try_recv")) {
                     let mut m2 = m.clone();
                     let e: Expr = syn::parse_str(extra).expect("ghost-arg");
                     m2.args.push(e);
@@ -101,9 +101,9 @@ impl<'a> VisitMut for BodyRules<'a> {
                 self.outline("__o_hashset_clone"); repl = Some(parse_quote!(__o_hashset_clone(&#a))); }
             if name == "pow" && m.args.len() == 1 && is_lit_2usize(&m.receiver) { let a = m.args.first().unwrap(); self.outline("__o_pow2"); repl = Some(parse_quote!(__o_pow2(#a))); }
             // O: `X.len().try_into().expect(MSG)` (u64 -> usize)
-            if name == "expect" { if let Expr::MethodCall(ti) = &*m.receiver { if ti.method == "try_into" && ti.args.is_empty() { if let Expr::MethodCall(ln) = &*ti.receiver { if ln.method == "len" {
+            if repl.is_none() && name == "expect" { if let Expr::MethodCall(ti) = &*m.receiver { if ti.method == "try_into" && ti.args.is_empty() { if let Expr::MethodCall(ln) = &*ti.receiver { if ln.method == "len" {
                 let inner = (*ti.receiver).clone(); self.outline("__o_u64_to_usize"); repl = Some(parse_quote!(__o_u64_to_usize(#inner))); } } } } }
-            if name == "to_vec" && m.args.is_empty() { let a = &m.receiver; self.outline("__o_to_vec"); repl = Some(parse_quote!(__o_to_vec(#a))); }
+            if repl.is_none() && name == "to_vec" && m.args.is_empty() { let a = &m.receiver; self.outline("__o_to_vec"); repl = Some(parse_quote!(__o_to_vec(#a))); }
             if name == "concat" && m.args.is_empty() { if let Expr::Array(arr) = &*m.receiver { if arr.elems.len() == 2 { let a = &arr.elems[0]; let b = &arr.elems[1];
                 self.outline("__o_concat2"); repl = Some(parse_quote!(__o_concat2(#a, #b))); } } }
             if name == "then_some" && m.args.len() == 1 { let c = &m.receiver; let a = m.args.first().unwrap(); self.outline("__o_then_some"); repl = Some(parse_quote!(__o_then_some(#c, #a))); }
